@@ -128,6 +128,63 @@ def build_world_harness():
     return exe
 
 
+def build_simple_harness(name, std='c++17', extra_flags=None, sanitize=True, link_flags=None):
+    """compile every .cpp of harness/<name> against /repo's current headers into build/<key>/<name>/h_<name>."""
+    hdir = os.path.join(VERIF, 'harness', name)
+    flags0 = (CXX_SAN if sanitize else ['-O1', '-g']) + (extra_flags or [])
+    key = repo_hash(dir_hash(hdir) + std + ' '.join(flags0))
+    out = os.path.join(BUILD, key, name)
+    exe = os.path.join(out, 'h_' + name)
+    if os.path.exists(exe):
+        os.utime(os.path.join(BUILD, key))
+        return exe
+    os.makedirs(out, exist_ok=True)
+    t0 = time.time()
+    flags = ['-std=' + std] + flags0 + ['-I' + os.path.join(REPO, 'include'), '-I' + hdir]
+    srcs = [os.path.join(hdir, f) for f in sorted(os.listdir(hdir)) if f.endswith('.cpp')]
+    jobs = [(s_, os.path.join(out, os.path.basename(s_)[:-4] + '.o'), flags) for s_ in srcs]
+    errs = compile_many(jobs, out)
+    if errs:
+        raise BuildError('%s harness does not compile against /repo:\n' % name + '\n'.join(errs[:3]))
+    lf = link_flags if link_flags is not None else (['-fsanitize=address,undefined'] if sanitize else [])
+    r = sh(['g++'] + lf + [j[1] for j in jobs] + ['-o', exe + '.tmp'] + (['-lpthread'] if 'thread' in ' '.join(flags0) else []))
+    if r.returncode != 0:
+        raise BuildError('%s harness link failed:\n' % name + r.stderr[-3000:])
+    os.rename(exe + '.tmp', exe)
+    for j in jobs:
+        os.remove(j[1])
+    log('[build] h_%s for tree %s in %.0fs' % (name, key, time.time() - t0))
+    prune_builds({key})
+    return exe
+
+
+def run_lines(cmd, lines, nbatch=None):
+    """run a one-line-in/one-line-out program over `lines` in parallel batches; returns (outputs, errors)."""
+    if not lines:
+        return [], []
+    nbatch = nbatch or NPROC
+    size = (len(lines) + nbatch - 1) // nbatch
+    batches = [lines[i:i + size] for i in range(0, len(lines), size)]
+    env = dict(os.environ)
+    env['ASAN_OPTIONS'] = 'detect_leaks=1:exitcode=97:detect_stack_use_after_return=1'
+    env['UBSAN_OPTIONS'] = 'print_stacktrace=1:halt_on_error=1'
+
+    def one(b):
+        p = subprocess.run(cmd, input='\n'.join(b) + '\n', stdout=subprocess.PIPE, stderr=subprocess.PIPE,
+                           universal_newlines=True, env=env)
+        return p.returncode, p.stdout.split('\n'), p.stderr
+    outs = []
+    errs = []
+    with cf.ThreadPoolExecutor(NPROC) as ex:
+        for b, (rc, out, err) in zip(batches, ex.map(one, batches)):
+            out = [o for o in out if o != '']
+            if rc != 0 or len(out) != len(b):
+                errs.append((b[len(out)] if len(out) < len(b) else b[-1], 'exit %d: %s' % (rc, crash_summary(err))))
+                out = out + ['<crash>'] * (len(b) - len(out))
+            outs.extend(out[:len(b)])
+    return outs, errs
+
+
 def build_lean():
     """lake build (library, property theorems, driver).  A failure is a failed proof obligation."""
     t0 = time.time()
